@@ -373,8 +373,30 @@ let c04cal_check line =
         ("C04:rounds-not-the-least-k-with-elapsed-measured-from-the-first-sample(calibration=" ^ string_of_n cal ^ "ps)")
     | _ -> verdict false ("outcome:" ^ (if String.length obs > 80 then String.sub obs 0 80 else obs))
 
+(* C04, IntoDuration: "u=<whole seconds>" / "f=<decimal seconds>" -> exact nanoseconds *)
+let dur_ns line =
+  match String.index_opt line '=' with
+  | Some 1 when line.[0] = 'u' -> N.mul (n_of_string (String.sub line 2 (String.length line - 2))) (n_of_string "1000000000")
+  | Some 1 when line.[0] = 'f' -> N.div (picos_of_decimal (String.sub line 2 (String.length line - 2))) (n_of_small 1000)
+  | _ -> failwith "dur"
+
+let dur_model line =
+  let ns = dur_ns line in
+  let (q, r) = N.div_eucl ns (n_of_string "1000000000") in
+  string_of_n q ^ ":" ^ string_of_n r
+
+let dur_check line =
+  let (case, impl) = split_sb line in
+  match String.split_on_char ':' impl with
+  | [a; b] -> (match (try Some (n_of_string a, n_of_string b) with _ -> None) with
+      | Some (sa, nb) -> verdict (c04_dur_sb (dur_ns case) sa nb) "C04:seconds-not-converted-exactly"
+      | None -> verdict false ("outcome:" ^ impl))
+  | _ -> verdict false ("outcome:" ^ impl)
+
 let dispatch mode line =
   match mode with
+  | "c04dur" -> dur_model line
+  | "c04dur.sb" -> dur_check line
   | "c04cal" -> c04cal_model line
   | "c04cal.sb" -> c04cal_check line
   | "c03fig" -> fig_model line
